@@ -402,3 +402,38 @@ func VerifH_C18_inbound_cap_deep() { VerifH_C18_inbound_cap() }
 
 //verif:harness prop=C18 tier=thorough replay=interp go=sched preempt=4 require=closed bounds="as VerifH_C18_run_close with ≤4 delays"
 func VerifH_C18_run_close_deep() { VerifH_C18_run_close() }
+
+// VerifH_C18_limit_options: the limit options take effect for every value, in
+// particular "0 or negative disables the per-subnet limit": with the option
+// applied to the default configuration, acquireInflight admits exactly
+// min(k, n) of k requests for n > 0 and all of them for n <= 0.
+//
+//verif:harness prop=C18 tier=quick replay=interp require=disabled,limited bounds="WithMaxInflightRPCsPerSubnet(n) for every 64-bit n, applied to a configuration holding the default; 1..4 slot requests for one subnet"
+func VerifH_C18_limit_options() {
+	w := newC18(1, 2) // (2 stands for the built-in default of 256: small enough to be seen)
+	s := w.s
+	n := int(vapi.I64("subnet-limit"))
+	WithMaxInflightRPCsPerSubnet(n)(&s.config)
+	k := vapi.Int("requests", 1, 4)
+	admitted := 0
+	for i := 0; i < k; i++ {
+		if s.acquireInflight("10.0.0.0/24") {
+			admitted++
+		}
+	}
+	if n <= 0 {
+		vapi.Reach("disabled")
+		vapi.Assert("options.non-positive-disables-the-subnet-limit", admitted == k)
+	} else {
+		vapi.Reach("limited")
+		want := k
+		if n < k {
+			want = n
+		}
+		vapi.Assert("options.subnet-limit-is-n", admitted == want)
+	}
+	for i := 0; i < admitted; i++ {
+		s.releaseInflight("10.0.0.0/24")
+	}
+	vapi.Assert("options.slots-returned", len(s.inflightSubnet) == 0)
+}
